@@ -554,6 +554,7 @@ Section WithTables.
 
   (* ------------------------------------------------------------ run.py *)
   Variable trans : list (string * string * string).    (* path, old key, new key *)
+  Variable cmode : string.        (* the `what` run.py passes to sim.clean in the --clean branch *)
 
   Definition translate_opt (o : opt) : opt :=
     match filter (fun tr => (String.eqb (fst (fst tr)) (fst (fst o))
@@ -570,7 +571,7 @@ Section WithTables.
   Inductive call : Type :=
   | CExit                                  (* sys.exit: a file or directory is missing *)
   | CLoadSim (f : string)
-  | CCleanComputed
+  | CClean (what : string)
   | CLoadModel (f : string)
   | CSetModel
   | CExpandModel (expand : value) (seasurface : option value)
@@ -612,7 +613,7 @@ Section WithTables.
     | Some f =>
         [CLoadSim f]
         ++ (if o_clean o then
-              [CCleanComputed; CLoadModel (file_str o "model"); CSetModel]
+              [CClean cmode; CLoadModel (file_str o "model"); CSetModel]
               ++ match gopt o "expand" with
                  | Some e => [CExpandModel e (gopt o "seasurface")]
                  | None => []
@@ -661,4 +662,23 @@ Definition parse (abspath : string -> string) (c : config) (t : term) : res outp
              files_keys files_defaults abspath c t.
 
 Definition run (o : output) (files_ok sim_layered : bool) : list call :=
-  run_with key_translation o files_ok sim_layered.
+  run_with key_translation clean_mode o files_ok sim_layered.
+
+(* --------------------------------------------------- Simulation.clean *)
+(* Results a Simulation holds that belong to the model they were computed
+   with: fields, responses at the receivers, residual and weights, the
+   computed flag, misfit and gradient (names as in emg3d/simulations.py;
+   `data.x` = data variable x of the survey). *)
+Definition old_results : list string :=
+  ["_dict_efield"; "_dict_efield_info"; "_dict_bfield"; "_dict_bfield_info";
+   "_computed"; "data.synthetic"; "data.residual"; "data.weights"; "_gradient"; "_misfit"].
+
+(* [resets]: for each mode of Simulation.clean, what it resets (regenerated
+   from the source: Gen.CliTable.clean_resets). *)
+Definition resets_of (resets : list (string * list string)) (mode : string) : list string :=
+  match assoc mode resets with Some l => l | None => [] end.
+
+(* the cached state (names of what is held) after clean(mode) *)
+Definition apply_clean (resets : list (string * list string)) (mode : string)
+           (st : list string) : list string :=
+  filter (fun n => negb (str_mem n (resets_of resets mode))) st.
